@@ -9,6 +9,10 @@ NOTE = ("Trusted: Lean 4.33 kernel; axioms propext, Classical.choice, Quot.sound
         "harness/translate.py; the correspondence check (differential testing, generator quality bounds what it sees). ")
 
 CHECKS = {
+    "C18": dict(
+        text="Proved on the model of progress.py over exact rationals: from a valid state every operation either raises the bookkeeping ValueError exactly when the counter would exceed the total, or yields a valid state and a fraction in [0,1] (step_unit), hence every notification of every operation sequence carries a fraction in [0,1] (emitted_fractions_in_unit_interval); perform_zhit announces exactly as many steps as it performs for every combination of smoothing/interpolation/window/custom-weight options and any number of window functions (zhit_increments_eq_total; the old accounting overshoots: old_zhit_accounting_overshoots), likewise fit_circuit. Tie: Progress is wrapped from the harness; every analysis run of the option cross product replays its recorded operations in the model and compares totals, increments and emitted fractions. PARTIAL: completion of the numerical code for each option combination (the full cross product in the thorough tier, a seeded sample in the quick tier) and the step accounting of the Kramers-Kronig and DRT entry points are conformance testing on the implementation, classified by the oracle (no IndexError/KeyError/…, no bookkeeping abort, no TypeError/ValueError escaping from inside numpy/scipy/lmfit).",
+        ref="§4 C18", tech=TECH_H,
+        note=NOTE + "numerical failures inside numpy/scipy/lmfit and float accumulation in _RECENT_PROGRESS are runtime."),
     "C17": dict(
         text="Proved on the selection model (sorted(results, key)[0] as a stable merge sort): any two completion orders select the same winner when the minimal key is unique (pickBest_perm), the selected key is minimal whatever the order, so tied runs can only differ among equal keys (pickBest_key_minimal, pickBest_keys_agree), ordered collection (imap/map) is schedule-free outright, and the two unordered stages of Z-HIT compose (zhit_two_stage). Tie: the real entry points run with the Pool replaced by an in-process pool that permutes completion order; the keys actually collected are sent to the model and its winner compared with the returned result; the theorem's hypothesis (unique minimum, no NaN keys) is measured. PARTIAL: determinism of worker code across processes, the OS scheduler and repeatability of the numerical code are checked on the implementation only (permuted in-process pools, real pools with several process counts, repetition, mock-data seeds).",
         ref="§4 C17", tech=TECH_H,
